@@ -68,7 +68,8 @@ def detect(mid, props, tier='quick'):
     try:
         for p in props:
             t0 = time.time()
-            r = sh('cd %s && VERIF_REPO=%s VERIF_EVID=/tmp/mut/ev-%s ./check %s %s' % (V, wt, mid, p, tier))
+            r = sh('cd %s && VERIF_REPO=%s VERIF_EVID=/tmp/mut/ev-%s%s ./check %s %s' % (
+                V, wt, mid, ' VERIF_FIRSTFAIL=1' if os.environ.get('FIRSTFAIL') else '', p, tier))
             viol = [l for l in r.stdout.splitlines() if l.startswith('VIOLATION')]
             first = next((l for l in r.stdout.splitlines() if l.strip().startswith('REPRODUCED')), '')
             herr = [l for l in r.stdout.splitlines() if l.startswith('HARNESS-ERROR')]
